@@ -64,31 +64,31 @@ def corruptions(case):
         cnt = [0]
         new_inner = replace_var_once(inner, v, FRESH, cnt)
         ne = ('aggr', e[1], new_inner) if e[0] == 'aggr' else new_inner
-        out.append(('unbound-head-variable', with_stmt(i, s.replace(args=s.args[:k] + ((f, ne),) + s.args[k + 1:])), 'invalid', [FRESH]))
+        out.append(('unbound-head-variable', with_stmt(i, s.replace(args=s.args[:k] + ((f, ne),) + s.args[k + 1:])), 'invalid', [FRESH], s.pred))
         break
     if s.body:
       for j, p in enumerate(s.body):
         # fresh variable in a comparison
-        if p[0] == 'cmp':
+        if p[0] == 'cmp' and not (p[1][0] == 'bin' and p[1][1] == '=='):     # `w == e` with w unbound is an assignment, not an error
           for v in sorted(lang.evars(p[1], nested=False)):
             cnt = [0]
-            out.append(('unbound-comparison-variable', with_stmt(i, s.replace(body=s.body[:j] + (('cmp', replace_var_once(p[1], v, FRESH, cnt)),) + s.body[j + 1:])), 'invalid', [FRESH]))
+            out.append(('unbound-comparison-variable', with_stmt(i, s.replace(body=s.body[:j] + (('cmp', replace_var_once(p[1], v, FRESH, cnt)),) + s.body[j + 1:])), 'invalid', [FRESH], s.pred))
             break
         # fresh variable inside a negated comparison
         if p[0] == 'not':
           for jj, q in enumerate(p[1]):
-            if q[0] == 'cmp':
+            if q[0] == 'cmp' and not (q[1][0] == 'bin' and q[1][1] == '=='):
               for v in sorted(lang.evars(q[1], nested=False)):
                 cnt = [0]
                 nb = p[1][:jj] + (('cmp', replace_var_once(q[1], v, FRESH, cnt)),) + p[1][jj + 1:]
-                out.append(('unbound-variable-in-negation', with_stmt(i, s.replace(body=s.body[:j] + (('not', nb),) + s.body[j + 1:])), 'invalid', [FRESH]))
+                out.append(('unbound-variable-in-negation', with_stmt(i, s.replace(body=s.body[:j] + (('not', nb),) + s.body[j + 1:])), 'invalid', [FRESH], s.pred))
                 break
           # a negated comparison over an unbound variable added to the negation
           nb = p[1] + (Cmp('>', V(FRESH), N(3)),)
-          out.append(('unbound-variable-in-negation', with_stmt(i, s.replace(body=s.body[:j] + (('not', nb),) + s.body[j + 1:])), 'invalid', [FRESH]))
+          out.append(('unbound-variable-in-negation', with_stmt(i, s.replace(body=s.body[:j] + (('not', nb),) + s.body[j + 1:])), 'invalid', [FRESH], s.pred))
         # delete a positive literal (maybe the only binder of a head / comparison variable)
         if p[0] == 'lit' and len(s.body) >= 1:
-          out.append(('delete-literal', with_stmt(i, s.replace(body=s.body[:j] + s.body[j + 1:] if len(s.body) > 1 else None) if len(s.body) > 1 else s.replace(body=(Cmp('==', N(1), N(1)),))), None, []))
+          out.append(('delete-literal', with_stmt(i, s.replace(body=s.body[:j] + s.body[j + 1:] if len(s.body) > 1 else None) if len(s.body) > 1 else s.replace(body=(Cmp('==', N(1), N(1)),))), None, [], s.pred))
     # drop distinct from an aggregating head
     if s.distinct and s.is_agg():
       out.append(('aggregation-without-distinct', with_stmt(i, s.replace(distinct=False)), 'invalid', [s.pred]))
@@ -173,13 +173,17 @@ def work(task):
     viol.append(dict(sig=sig, what='%s | %s' % (what, semcheck.oneline(text)[:300]), case=dict(text=text, operator=op)))
   for i in range(shard, len(cs), nsh):
     c = cs[i]; stats['base_programs'] += 1
-    for op, prog, expect, names in corruptions(c):
+    for cor in corruptions(c):
+      op, prog, expect, names = cor[:4]; corrupted_pred = cor[4] if len(cor) > 4 else None
       text = prog.text()
       stats['corrupted'] += 1; kinds[op] = kinds.get(op, 0) + 1
       comp = impl.Compiled(text); stats['compiles'] += 1
       whole = op in ('inconsistent-distinct', 'recursion-without-base-case', 'functor-argument-not-a-dependency', 'annotation-of-missing-predicate')
       for pred in c.preds:
         if pred not in prog.defined(): continue
+        # recursion: the compiler prunes rule instances whose inputs are provably empty at the requested depth, so a broken rule of
+        # ANOTHER member of the component may never be instantiated; rejection is asserted for the predicate whose own rule is broken
+        if c.family.startswith('REC') and corrupted_pred is not None and pred != corrupted_pred: continue
         inv = True if whole else model_invalid(c, prog, pred)
         if expect != 'invalid' and not inv: inv = False
         if not inv:
